@@ -900,7 +900,18 @@ fn run_real(lines: &[(String, String)], exe: &str, notes: &mut Vec<String>) -> H
     let mut results: HashMap<String, (String, String)> = HashMap::new();
     let mut start = 0usize;
     let mut restarts = 0;
+    let mut hangs = 0u32;
     while start < lines.len() {
+        if hangs >= 10 {
+            notes.push(format!(
+                "stopped evaluating after {} hung / aborted evaluations; {} of {} evaluations not run",
+                hangs,
+                lines.len() - start,
+                lines.len()
+            ));
+            break;
+        }
+        let patience = if hangs < 3 { 8 } else { 3 };
         let path = format!("/tmp/c11-worker-{}-{}.txt", std::process::id(), restarts);
         let body: String = lines[start..]
             .iter()
@@ -930,7 +941,7 @@ fn run_real(lines: &[(String, String)], exe: &str, notes: &mut Vec<String>) -> H
         let mut done_here = 0usize;
         let mut failed: Option<&'static str> = None;
         loop {
-            match rx.recv_timeout(Duration::from_secs(8)) {
+            match rx.recv_timeout(Duration::from_secs(patience)) {
                 Ok(l) => {
                     let p: Vec<&str> = l.splitn(4, '\t').collect();
                     if p[0] == "B" {
@@ -985,8 +996,9 @@ fn run_real(lines: &[(String, String)], exe: &str, notes: &mut Vec<String>) -> H
                 }
             }
             Some(what) => {
+                hangs += 1;
                 let id = current.clone().unwrap_or_default();
-                results.insert(id.clone(), (what.to_string(), format!("{}: no result within 8 s / process died", what)));
+                results.insert(id.clone(), (what.to_string(), format!("{}: no result within {} s / process died", what, patience)));
                 // skip the rest of this case: its interpreter state is gone
                 let case_id = id.split('.').next().unwrap_or("").to_string();
                 let mut next = start + done_here + 1;
@@ -1045,7 +1057,7 @@ fn main() {
     let thorough = args.tier == "thorough";
     let mut rng = Rng::new(args.seed);
     let edges = edge_ints();
-    let (n_random, nobs) = if thorough { (60_000usize, 12usize) } else { (2_600usize, 11usize) };
+    let (n_random, nobs) = if thorough { (120_000usize, 12usize) } else { (8_000usize, 11usize) };
     let mut uniq = 0usize;
     let mut cases: Vec<Case> = vec![];
     for e in sweep(thorough) {
@@ -1139,7 +1151,11 @@ fn main() {
             if *n > 6 {
                 continue; // enough examples of this class; the count goes to the notes
             }
-            let alone = if *n <= 3 { eval_alone(&exe, &c.expr.src(), &o.src) } else { rust.clone() };
+            let alone = if *n <= 3 && rust != "hang" && rust != "abort" {
+                eval_alone(&exe, &c.expr.src(), &o.src)
+            } else {
+                rust.clone()
+            };
             if alone == rust {
                 format!("{}\nrequest: {}", src_full, requests[ri])
             } else {
